@@ -841,10 +841,17 @@ func wfRangeReq(o *ObjectRangeRequest) bool {
 //@ iface gofakes3.Backend.DeleteMulti
 //@ modifies store_gen, dm_count, dm_bucket, dm_keys
 //@ ensures            log:    dm_count == old(dm_count) + 1 && dm_bucket == bucketName && dm_keys == objects
+// the last copy handed to the backend
+//@ ghost cpo_count : Int
+//@ ghost cpo_srcb : Str
+//@ ghost cpo_srck : Str
+//@ ghost cpo_dstb : Str
+//@ ghost cpo_dstk : Str
 //@ iface gofakes3.Backend.CopyObject
 //@ requires           meta:   meta != nil
-//@ modifies store_gen
+//@ modifies store_gen, cpo_count, cpo_srcb, cpo_srck, cpo_dstb, cpo_dstk
 //@ ensures [C08]      reject: imp(ret1 != nil, store_gen == old(store_gen))
+//@ ensures            log:    cpo_count == old(cpo_count) + 1 && cpo_srcb == srcBucket && cpo_srck == srcKey && cpo_dstb == dstBucket && cpo_dstk == dstKey
 //@ iface gofakes3.VersionedBackend.VersioningConfiguration
 //@ iface gofakes3.VersionedBackend.SetVersioningConfiguration
 //@ modifies store_gen
@@ -922,6 +929,9 @@ func wfRangeReq(o *ObjectRangeRequest) bool {
 //@ func (*GoFakeS3).xmlDecodeBody
 //@ props C09
 //@ requires           rdr:    rdr != nil
+// a body the XML decoder refuses (an empty one included: Unmarshal answers io.EOF) is MalformedXML, never a success
+//@ ensures [C09]      malformed: imp(xu_count == old(xu_count) + 1 && !xu_ok, errcode(ret0) == ErrMalformedXML)
+//@ ensures [C09]      decoded: imp(ret0 == nil, xu_count == old(xu_count) + 1 && xu_ok)
 //@ modifies heap
 
 //@ func (*GoFakeS3).ensureBucketExists
@@ -1063,10 +1073,18 @@ func wfRangeReq(o *ObjectRangeRequest) bool {
 //@ ensures [C08]      reject: imp(err != nil && errcode(err) != "" && !g.autoBucket, store_gen == old(store_gen))
 //@ ensures [C08]      badlen: imp(err == nil && resp_status(w) == 400 && old(resp_status(w)) != 400 && !g.autoBucket, store_gen == old(store_gen))
 //@ func (*GoFakeS3).copyObject
-//@ props C09 C08 C02 C10
+//@ props C09 C08 C02 C10 C01
 //@ requires           inv:    gInv(g) && w != nil && rqInv(r) && meta != nil
 //@ ensures [C08]      reject: imp(err != nil && errcode(err) != "" && !g.autoBucket, store_gen == old(store_gen))
-//@ modifies store_gen, resp_writes(w), meta[:], get_count, get_bucket, get_key, get_ver, get_obj, get_ranged
+// C02/C01: the copy source is '/<bucket>/<key>[?...]' - everything after the first slash up to a '?' is the
+// (URL-escaped) key, nested slashes included - and the destination is the addressed (bucket, object)
+//@ let SRC = strings.TrimPrefix(ite(old(has(meta, "X-Amz-Copy-Source")), old(meta["X-Amz-Copy-Source"]), ""), "/")
+//@ let SREST = substr(SRC, indexof(SRC, "/") + 1, len(SRC))
+//@ ensures [C02,C01]  source: imp(cpo_count == old(cpo_count) + 1, contains(SRC, "/") && cpo_srcb == substr(SRC, 0, indexof(SRC, "/")) &&
+//@                              cpo_srck == nth(url.QueryUnescape(ite(contains(SREST, "?"), substr(SREST, 0, indexof(SREST, "?")), SREST)), 0) &&
+//@                              cpo_dstb == bucket && cpo_dstk == object)
+//@ ensures [C02]      once:   cpo_count <= old(cpo_count) + 1
+//@ modifies store_gen, resp_writes(w), meta[:], get_count, get_bucket, get_key, get_ver, get_obj, get_ranged, cpo_count, cpo_srcb, cpo_srck, cpo_dstb, cpo_dstk
 //@ func (*GoFakeS3).deleteObject
 //@ props C09 C02
 //@ requires           inv:    gInv(g) && w != nil && rqInv(r)
